@@ -1,6 +1,7 @@
 import Gv.Proofs.BagRef10
 import Gv.Proofs.BagRefExt
 import Gv.Proofs.BagRefExt2
+import Gv.Proofs.BagRefExt3
 /-!
 Names stay pairwise distinct (C01): every operation other than the caller's own name edits
 (`Rename`, `RenameRegexp`, `AppendSeqIdentifier`, `CleanNames`, `TrimNames`, `TrimNamesAuto`) keeps the names of a
@@ -256,5 +257,8 @@ theorem ni_stepOp {b : Bag} (h : NI b) (hr : Rect b) (op : Op) (hne : ¬ NameEdi
   | setAlpha a =>
     obtain ⟨f1, f2, f3, -⟩ := setAlphabet_fields a b
     exact h.congr f1 f2 f3
+  | revcompSeqs names =>
+    have s := sameShape_reverseComplementSequences names b h.inv
+    exact h.keys s.keys s.index s.next
 
 end Gv.Proofs.BagAbs
